@@ -111,3 +111,19 @@ func genC16(g *gen) {
 		}
 	}
 }
+
+// captureGen runs a generator into memory and returns its program lines.
+func captureGen(g *gen, f func(*gen)) []string {
+	var buf bytes.Buffer
+	w := bufio.NewWriter(&buf)
+	sg := &gen{w: w, r: &rng{s: g.r.next()}, tier: g.tier, pfx: "x_"}
+	f(sg)
+	w.Flush()
+	var out []string
+	for _, l := range strings.Split(buf.String(), "\n") {
+		if strings.TrimSpace(l) != "" {
+			out = append(out, l)
+		}
+	}
+	return out
+}
